@@ -299,6 +299,7 @@ func smartWrap(box orb.Bound, input []orb.LineString, o orb.Orientation) orb.Mul
 	var (
 		result  orb.MultiPolygon
 		current orb.Ring
+		first   int // index of the piece current starts with
 	)
 
 	// this operation is O(n^2). Technically we could use a linked list
@@ -313,6 +314,7 @@ func smartWrap(box orb.Bound, input []orb.LineString, o orb.Orientation) orb.Mul
 		if !ep.Start {
 			if len(current) == 0 {
 				current = orb.Ring(input[ep.Index])
+				first = ep.Index
 				ep.Used = true
 			}
 			continue
@@ -331,8 +333,9 @@ func smartWrap(box orb.Bound, input []orb.LineString, o orb.Orientation) orb.Mul
 			r = aroundBound(box, orb.Ring{ep.Point, current[len(current)-1]}, o)
 		}
 
-		if ep.Point.Equal(current[0]) {
-			// loop complete!!
+		if ep.Index == first && ep.Point.Equal(current[0]) {
+			// loop complete!! Back at the start of the piece the ring began with: the start
+			// of another piece in the same point (two rings that touch there) goes on.
 			current = append(current, r[2:]...)
 			result = append(result, orb.Polygon{current})
 			current = nil
